@@ -144,6 +144,19 @@ pub fn variants(tier: Tier) -> Vec<WorldSpec> {
     s.system.push(Row::new("あ", 1, 11, 400, P_PART));
     s.system.push(Row::new("あい", 2, 10, 700, P_PART));
     v.push(s);
+    // a connection-cost plugin that edits cells off the diagonal (the edited matrix is the one the
+    // search has to use, and the cells have to be the configured ones)
+    let mut s = cost_spec("W-cost-inhibit");
+    s.plugins["connectionCostPlugin"] = json!([{"class": "com.worksap.nlp.sudachi.InhibitConnectionPlugin", "inhibitPair": [[1, 2], [3, 1], [0, 4], [5, 0]]}]);
+    v.push(s);
+    // words of letters: a word may not end inside a run of letters, which removes candidates
+    // (prefixes of longer words, in the same and in another dictionary)
+    let mut s = cost_spec("W-cost-latin");
+    for (i, w) in ["a", "ab", "abc", "b", "bc", "c", "ca", "aあ", "あa"].iter().enumerate() {
+        s.system.push(Row::new(w, 1 + (i as i32 % 5), 1 + ((i as i32 * 3) % 5), 300 + 211 * i as i32, P_NOUN));
+    }
+    s.users.push(vec![Row::new("a", 2, 3, 50, P_PROPN), Row::new("bc", 3, 2, 60, P_PROPN)]);
+    v.push(s);
     let mut s = cost_spec("W-cost-user-layer");
     s.users.push(vec![Row::new("いう", 3, 2, -2000, P_NOUN), Row::new("あ", 1, 5, 100, P_PROPN), Row::new("ういう", 2, 2, 300, P_NOUN)]);
     s.users.push(vec![Row::new("う", 4, 4, 2500, P_NOUN), Row::new("あいう", 5, 5, -1000, P_NOUN)]);
@@ -311,6 +324,15 @@ impl Space for CostSpace {
         reachable[0] = true;
         // the candidate words of the statement: every indexed dictionary row that matches at a
         // position (from the CSV, independent of what the lattice holds) + the OOV nodes offered
+        // (a word is a candidate only if another word may begin where it ends: the word-start table
+        // of the text, taken from a buffer built independently of the lattice builder)
+        let word_start: Vec<bool> = {
+            use sudachi::input_text::{InputBuffer, InputTextIndex};
+            let mut buf = InputBuffer::new();
+            buf.reset().push_str(&text);
+            let ok = buf.start_build().is_ok() && buf.build(dict.grammar()).is_ok();
+            (0..=text.len()).map(|b| !ok || b >= text.len() || (text.is_char_boundary(b) && buf.can_bow(b))).collect()
+        };
         let mut by_begin: Vec<Vec<VerifNode>> = vec![Vec::new(); n + 1];
         for p in 0..n {
             for (d, i, row) in &rows {
@@ -319,6 +341,9 @@ impl Space for CostSpace {
                 }
                 if text[coff[p]..].starts_with(row.surface.as_str()) {
                     let end_b = coff[p] + row.surface.len();
+                    if !word_start[end_b] {
+                        continue;
+                    }
                     let end_c = coff.iter().position(|&b| b == end_b).unwrap();
                     let wid = WordId::new(*d as u8, *i as u32);
                     let auto_cost = *d > 0 && row.cost == -32768;
@@ -386,10 +411,12 @@ impl Space for CostSpace {
         }
         // connection costs vs the declared matrix (for the ids that occur)
         let m = &self.world.spec.matrix;
+        let inhibited: Vec<(usize, usize)> = self.world.spec.plugins.get("connectionCostPlugin").and_then(|p| p.as_array()).map(|a| a.iter().flat_map(|pl| pl["inhibitPair"].as_array().cloned().unwrap_or_default()).filter_map(|pr| Some((pr[0].as_u64()? as usize, pr[1].as_u64()? as usize))).collect()).unwrap_or_default();
         for l in 0..m.left {
             for r in 0..m.right {
-                if self.conn(l as u16, r as u16) != m.cells[l][r] as i64 {
-                    o.fail(Failure::new("connection-cost-vs-matrix", format!("[{}] cost({}, {}) = {} but the matrix text says {}", wname, l, r, self.conn(l as u16, r as u16), m.cells[l][r])));
+                let declared = if inhibited.contains(&(l, r)) { 32767 } else { m.cells[l][r] };
+                if self.conn(l as u16, r as u16) != declared as i64 {
+                    o.fail(Failure::new("connection-cost-vs-matrix", format!("[{}] cost({}, {}) = {} but the matrix text (with the configured inhibited pairs) says {}", wname, l, r, self.conn(l as u16, r as u16), declared)));
                 }
             }
         }
@@ -483,6 +510,10 @@ impl Space for CostSpace {
     }
 }
 
+fn spec_name_is_latin(w: &World) -> bool {
+    w.name() == "W-cost-latin"
+}
+
 pub fn main(tier: Tier, replay: Option<String>) -> i32 {
     let mut rep = Report::new("C02", "model_checking", tier);
     rep.rule = "states = every text over {あ,い,う} up to the bound, in every cost world (baseline and deviations: word costs / matrix cells at the i16 limits, ties, negative costs, layered user dictionaries, MeCab / regex OOV providers); the candidate words are computed independently (every indexed CSV row that matches at a position, with its declared ids and cost) plus the OOV nodes the real lattice offers (read through the verif hook); every tiling candidate sequence is enumerated (brute force up to brute_force_len, DP beyond) and the returned path must consist of candidates, its recomputed cumulative costs must equal total_cost() and its total the minimum; lattice nodes are compared with the dictionary word parameters and the CSV, differences between the lattice node set and the naive scan are counted (a missing candidate shows as a cost difference); non-trivial = the lattice offers alternatives and the path has more than one token".into();
@@ -494,10 +525,10 @@ pub fn main(tier: Tier, replay: Option<String>) -> i32 {
     let mut jobs: Vec<Box<dyn AnyJob>> = Vec::new();
     for spec in variants(tier) {
         let w = Arc::new(World::build(spec).unwrap_or_else(|e| panic!("cost world: {}", e)));
-        let bounds = TreeBounds::full(tier.pick(9, 11));
+        let bounds = TreeBounds::full(if spec_name_is_latin(&w) { tier.pick(7, 9) } else { tier.pick(9, 11) });
         let b = json!({"tree": bounds.to_json(), "brute_force_len": tier.pick(5, 6)});
         jobs.push(job(
-            CostSpace { world: w, alpha: syms(&["あ", "い", "う"], &[]), bounds, brute_force_len: tier.pick(5, 6) },
+            CostSpace { alpha: if w.name() == "W-cost-latin" { syms(&["a", "b", "c", "あ"], &[]) } else { syms(&["あ", "い", "う"], &[]) }, world: w, bounds, brute_force_len: tier.pick(5, 6) },
             Strategy::Bfs,
             Some(tier.pick(30, 1500)),
             b,
